@@ -24,7 +24,7 @@ def worker(kp, job):
     kern_only = idx % 3 != 0
     ragged = idx % 10 == 9          # signatures in some spines only: finding K10 (export raises)
     g = docs.gen_doc(rng, kern_only=kern_only, core=not ragged, max_spines=3, measures=rng.randint(1, 5), comments=(idx % 2 == 0),
-                     chords=True, opening_barline=None, final_barline=None, rest_in_chord=0, bboxes=(0.35 if idx % 4 == 3 else 0.0))
+                     chords=True, opening_barline=None, final_barline=None, rest_in_chord=0, bboxes=(0.35 if idx % 4 == 3 else 0.0), empty_measures=(0.3 if idx % 5 == 2 else 0.0))
     text = g.text
     bad = docs.bad_cells(kp, text)
     try:
